@@ -28,7 +28,7 @@ CONSTANTS MaxN,      \* maximum number of candidates
           Salts,     \* set of salts (derived dimensions)
           Rich,      \* TRUE: also multiple reasons of rejection
           Emit,      \* TRUE: print the selected cases
-          EmitMod,   \* a case is printed when its mix value is 0 modulo EmitMod ...
+          EmitMod,   \* a case is printed when its `thin` value is 0 modulo EmitMod ...
           FullN, FullDir   \* ... or when it is within these (smaller) bounds
 
 VARIABLES cs,     \* generator view of the candidates: sequence of [adm, dir]
@@ -89,7 +89,13 @@ MkCase(nsect, nmini, nmaxi, nsmax, salt) ==
                     [active |-> k[1], defined |-> k[2], passesCheckers |-> k[3], isTargetOrFold |-> k[4],
                      distRank |-> perm[i], sector |-> cs[i].dir]],
        ndir |-> ndir, nsect |-> nsect, nmini |-> nmini, nmaxi |-> nmaxi, nsmax |-> nsmax,
-       radiusRank |-> radiusRank, xvalid |-> xvalid, kfold |-> kfold, mix |-> h ]
+       radiusRank |-> radiusRank, xvalid |-> xvalid, kfold |-> kfold, mix |-> h,
+       \* second, differently weighted mix: selects the slice of cases that is emitted (it must not
+       \* be aligned with the derived dimensions, which are functions of `mix`)
+       thin |-> salt + 7 * nmini + 3 * nmaxi + 5 * nsmax + nsect
+                + (LET S[i \in 0..n] == IF i = 0 THEN 0
+                                        ELSE S[i - 1] + (2 * i + 1) * (cs[i].dir + (IF cs[i].adm THEN 3 ELSE 0) + 2)
+                   IN S[n]) ]
 
 Init == cs = <<>> /\ ndir \in 1..MaxDir /\ phase = "build" /\ case = <<>>
 
@@ -160,7 +166,7 @@ Out(c) == LET def == Definition(c) IN
             cat |-> LET r == Categories(c) IN SetToSeq({k \in DOMAIN r : r[k]}) ]
 
 EmitSel(c) == \/ (NCand(c) <= FullN /\ c.ndir <= FullDir)
-              \/ (c.mix \div 2) % EmitMod = 0
+              \/ c.thin % EmitMod = 0
 
 Inv_Emit == ~Emit \/ ~IsCase \/ ~EmitSel(case) \/ PrintT(ToJson(Out(case)))
 =============================================================================
